@@ -233,6 +233,11 @@ def k_cases(tier):
 
 
 def run(tier, seed, rep):
+    # histories of several requests on one object (mc/sessions.py): a first transmission answered by a conforming frame
+    # needs no second one
+    from .. import sessions
+    _ses = sessions.explore_sessions(tier, seed, {'C02'}, light=True)
+    rep.add_many([v for v in _ses.violations if v['prop'] == 'C02'])
     # conforming answers while other callers (asking for blocks of other lengths) queue on the same object
     from . import c06
     novl, ovl = c06.acceptance_stage(tier, seed, ('valid', 'valid@.6T'))
@@ -283,7 +288,7 @@ def run(tier, seed, rep):
                     nk += 1
                     for key, cause in v:
                         rep.add(key, key.split('/')[0], dict(part='L', framing=framing, ca=ca, cb=cb, ka=ka), dict(cause=cause))
-    cov = dict(overlapping_caller_executions=novl, evaluations=total + nk + novl, distinct_nontrivial=nontriv,
+    cov = dict(session_histories=_ses.executions, overlapping_caller_executions=novl, evaluations=total + nk + novl, distinct_nontrivial=nontriv,
                rule='conforming frames built by the independent codec: RTU/MBAP read answers for every count x every '
                     'uniform fill byte (x all unit addresses for counts 1 and 125, x trailing 0/1/2/7 bytes on RTU), '
                     'walking-one payloads, write echoes over all 65536 registers x boundary values and all 65536 '
@@ -303,6 +308,11 @@ def run(tier, seed, rep):
 
 
 def replay(r):
+    if r['part'] == 'session':
+        from .. import sessions
+        out = sessions.replay(r)
+        out['violations'] = [m for m in out['violations'] if m[0] == 'C02']
+        return out
     if r['part'] == 'overlap':
         from . import c06
         out = c06.replay(r)
